@@ -348,6 +348,56 @@ func runC07(c *ctx, r *Report) error {
 		}
 		r.nontrivial(src)
 	}
+	// a diagnosed token inside a scalar of a MATRIX: row values, include / exclude values, plain and quoted. The column of the
+	// token is computed from the text written here (AL.C07S.finding_matrix_scalar_quote_lost: RawYAMLString keeps no quote
+	// flag, a quoted matrix scalar is reported one column to the left)
+	for _, q := range []string{"", "\"", "'"} {
+		for _, where := range []string{"row", "include", "exclude"} {
+			val := q + "${{ nosuchctx }}" + q
+			var body string
+			switch where {
+			case "row":
+				body = "        os:\n          - " + val + "\n"
+			case "include":
+				body = "        os: [a]\n        include:\n          - os: " + val + "\n"
+			default:
+				body = "        os: [a]\n        exclude:\n          - os: " + val + "\n"
+			}
+			src := "on: push\njobs:\n  j:\n    runs-on: ubuntu-latest\n    strategy:\n      matrix:\n" + body + "    steps:\n      - run: echo\n"
+			lines := strings.Split(src, "\n")
+			wl, wc := 0, 0
+			for i, ln := range lines {
+				if k := strings.Index(ln, "nosuchctx"); k >= 0 {
+					wl, wc = i+1, k+1
+				}
+			}
+			errs, err := lintSrc("m.yaml", src)
+			r.Evaluations++
+			if err != nil {
+				continue
+			}
+			hit, other := false, ""
+			for _, e := range errs {
+				if strings.Contains(e.Message, "nosuchctx") {
+					if e.Line == wl && e.Column == wc {
+						hit = true
+					} else {
+						other = fmt.Sprintf("%d:%d", e.Line, e.Column)
+					}
+				}
+			}
+			r.nontrivial(src)
+			r.hist(fmt.Sprintf("matrix-scalar:%s:quote=%q:exact=%v", where, q, hit))
+			if !hit {
+				key := "matrix-column"
+				if q != "" {
+					key = "matrix-quoted-column"
+				}
+				r.finding(key, fmt.Sprintf("an undefined context inside a %s matrix scalar (%s) at %d:%d is reported at %s", map[string]string{"": "plain", "\"": "double-quoted", "'": "single-quoted"}[q], where, wl, wc, other),
+					Case{Op: "lint-position", Input: map[string]string{"yaml": src, "expected": fmt.Sprintf("%d:%d", wl, wc)}})
+			}
+		}
+	}
 	// AL.Props.C07Rules / C13Parse: in the models of the parser and of the AST-only rules every diagnostic sits at the key /
 	// id / name / value it is about. Same diagnostics (kind, template, arguments) at other positions than the model's: the
 	// implementation's positions are off on that source.
